@@ -231,6 +231,9 @@ func genBigFloat(r *hx.RNG, tier string) (*big.Float, string) {
 	case 0:
 		return x.SetInf(r.Bool()), "inf"
 	case 1:
+		if r.Chance(35) {
+			x = new(big.Float) // a zero value: precision 0 (its negation keeps precision 0)
+		}
 		if r.Bool() {
 			x.Neg(x)
 		}
